@@ -124,6 +124,9 @@ struct Shared<S: Strat> {
     /// inventory published by every thread at quiescence points: (handle ids, guard (id, addr))
     inv: Vec<Mutex<(Vec<u64>, Vec<(u64, usize)>)>>,
     stop: AtomicBool,
+    /// identities that an operation may have leaked because an injected destructor panic unwound
+    /// out of it (finding F5)
+    f5: Mutex<Vec<u64>>,
     hs: Mutex<HStats>,
     loaded_ids: Mutex<Vec<u64>>,
     discarded_ids: Mutex<Vec<u64>>,
@@ -162,6 +165,13 @@ fn panic_msg(e: &Box<dyn std::any::Any + Send>) -> String {
     e.downcast_ref::<String>().cloned().or(e.downcast_ref::<&str>().map(|s| s.to_string())).unwrap_or("<non-string payload>".into())
 }
 
+thread_local! {
+    static INJECTED_CAUGHT: Cell<bool> = const { Cell::new(false) };
+}
+fn take_injected() -> bool {
+    INJECTED_CAUGHT.with(|c| c.replace(false))
+}
+
 /// Run a call into the crate; a panic that is not an injected one is an O-total violation.
 fn guarded<R>(what: &str, f: impl FnOnce() -> R) -> Option<R> {
     match catch_unwind(AssertUnwindSafe(f)) {
@@ -169,11 +179,15 @@ fn guarded<R>(what: &str, f: impl FnOnce() -> R) -> Option<R> {
         Err(e) => {
             if !is_injected(&e) {
                 report("O-total", "C13", format!("{} panicked: {}", what, panic_msg(&e)));
+            } else {
+                INJECTED_CAUGHT.with(|c| c.set(true));
             }
             None
         }
     }
 }
+
+pub const F5_MARK: &str = "[F5: a pointee destructor panicked inside the crate operation that was holding this value as a raw pointer]";
 
 struct Local<S: Strat> {
     tid: usize,
@@ -246,6 +260,25 @@ impl<S: Strat> Shared<S> {
             st.loc[l].hist.get(idx).map(|m| m.tag)
         })
         .flatten()
+    }
+
+    /// an injected destructor panic unwound out of a write operation on c that had (idx) / may
+    /// have (None) exchanged the pointer: the value it removed may have leaked one reference
+    fn dtor_panic_in_write(&self, c: usize, idx: Option<usize>, lo: usize) {
+        // the removed value (held as a raw pointer during the debt walk) and whatever an internal
+        // or nested load was being handed over by a helper
+        let lo = match idx {
+            Some(i) if i > 0 => lo.min(i - 1),
+            _ => lo,
+        };
+        let tags = self.tags_from(c, lo);
+        self.f5.lock().unwrap().extend(tags);
+        self.hs.lock().unwrap().panics_in_writer += 1;
+    }
+    /// ... out of a load on c: the value handed over by a helper may have leaked
+    fn dtor_panic_in_load(&self, c: usize, lo: usize) {
+        let tags = self.tags_from(c, lo);
+        self.f5.lock().unwrap().extend(tags);
     }
 
     fn hs<R>(&self, f: impl FnOnce(&mut HStats) -> R) -> R {
@@ -339,7 +372,12 @@ impl<S: Strat> Local<S> {
         rt::op_begin(OpKind::Load, sh.caddr(c), w);
         let g = guarded("load", || sh.conts[c].load());
         let info = rt::op_end();
-        let Some(g) = g else { return };
+        let Some(g) = g else {
+            if take_injected() {
+                sh.dtor_panic_in_load(c, lo);
+            }
+            return;
+        };
         let id = ident(&g, "load");
         sh.ev_end(ev, HK::Load { got: id });
         self.check_loaded(sh, c, lo, &g, id, "load");
@@ -362,7 +400,12 @@ impl<S: Strat> Local<S> {
         rt::op_begin(OpKind::Load, sh.caddr(c), w);
         let v = guarded("load_full", || sh.conts[c].load_full());
         let info = rt::op_end();
-        let Some(v) = v else { return };
+        let Some(v) = v else {
+            if take_injected() {
+                sh.dtor_panic_in_load(c, lo);
+            }
+            return;
+        };
         let id = ident(&v, "load_full");
         sh.ev_end(ev, HK::Load { got: id });
         self.check_loaded(sh, c, lo, &v, id, "load_full");
@@ -409,13 +452,22 @@ impl<S: Strat> Local<S> {
         let new = self.make_val(sh, c, v);
         let new_id = new.as_ref().map(|a| a.id()).unwrap_or(0);
         sh.clear_wrote(c);
+        let lo = sh.window_lo(c, false);
         let ev = sh.ev_begin(c);
         rt::op_begin(OpKind::Write, sh.caddr(c), true);
         if swap {
             let old = guarded("swap", || sh.conts[c].swap(new));
             rt::op_end();
             let idx = sh.wrote(c);
-            let Some(old) = old else { return };
+            let Some(old) = old else {
+                if take_injected() {
+                    sh.dtor_panic_in_write(c, idx, lo);
+                    if idx.is_some() {
+                        sh.ev_end(ev, HK::Store { new: new_id });
+                    }
+                }
+                return;
+            };
             let old_id = ident(&old, "swap result");
             sh.ev_end(ev, HK::Swap { new: new_id, old: old_id });
             if let Some(i) = idx {
@@ -437,10 +489,14 @@ impl<S: Strat> Local<S> {
         } else {
             let r = guarded("store", || sh.conts[c].store(new));
             rt::op_end();
-            let _ = sh.wrote(c);
+            let idx = sh.wrote(c);
             // the exchange happened even if the release of the old value panicked (injected)
-            let _ = r;
-            sh.ev_end(ev, HK::Store { new: new_id });
+            if r.is_none() && take_injected() {
+                sh.dtor_panic_in_write(c, idx, lo);
+            }
+            if idx.is_some() {
+                sh.ev_end(ev, HK::Store { new: new_id });
+            }
         }
     }
 
@@ -467,6 +523,7 @@ impl<S: Strat> Local<S> {
         let new_fresh = matches!(v, Val::Fresh) || (matches!(v, Val::Handle(_)) && new.as_ref().map(|a| a.strong_count() == 1).unwrap_or(false));
         let new_ptr = new.as_ref().map(|a| a.addr());
         sh.clear_wrote(c);
+        let lo = sh.window_lo(c, false);
         let ev = sh.ev_begin(c);
         rt::op_begin(OpKind::Write, sh.caddr(c), true);
         sh.hs(|h| h.cas_forms[form as usize] += 1);
@@ -482,7 +539,17 @@ impl<S: Strat> Local<S> {
         });
         rt::op_end();
         let idx = sh.wrote(c);
-        let Some(prev) = prev else { return };
+        let Some(prev) = prev else {
+            if take_injected() {
+                sh.dtor_panic_in_write(c, idx, lo);
+                if let Some(i) = idx {
+                    if let Some(p) = sh.tag_at(c, i - 1) {
+                        sh.ev_end(ev, HK::Cas { cur: p, new: new_id, prev: p });
+                    }
+                }
+            }
+            return;
+        };
         let prev_id = ident(&prev, "cas result");
         let success = vaddr(&prev) == cur_addr;
         sh.ev_end(ev, HK::Cas { cur: cur_id, new: new_id, prev: prev_id });
@@ -515,11 +582,12 @@ impl<S: Strat> Local<S> {
         }
         let gi = GInfo { id: prev_id, addr: vaddr(&prev), cont: c, creator: self.tid };
         self.guards.push((prev, gi));
-        drop(cur_v);
+        guarded("handle drop", move || drop(cur_v));
     }
 
     fn do_rcu(&mut self, sh: &Shared<S>, c: usize, nested: &Nested, panic_at: u8) {
         sh.clear_wrote(c);
+        let lo = sh.window_lo(c, false);
         let ev = sh.ev_begin(c);
         let attempts: RefCell<Vec<(u64, u64, usize)>> = RefCell::new(Vec::new());
         let k = Cell::new(0u8);
@@ -655,8 +723,29 @@ impl<S: Strat> Local<S> {
             Err(e) => {
                 if !is_injected(&e) {
                     report("O-total", "C13", format!("rcu panicked: {}", panic_msg(&e)));
-                } else if idx.is_some() && att.last().map(|a| a.1 == u64::MAX).unwrap_or(false) {
-                    report("O-panic", "C18", format!("a panic in the rcu closure changed container {}", c));
+                } else if att.last().map(|a| a.1 == u64::MAX).unwrap_or(false) {
+                    // the closure panicked: nothing may have changed
+                    if idx.is_some() {
+                        report("O-panic", "C18", format!("a panic in the rcu closure changed container {}", c));
+                    }
+                } else {
+                    // a destructor panicked somewhere inside rcu
+                    sh.dtor_panic_in_write(c, idx, lo);
+                    if let Some(i) = idx {
+                        if let (Some(p), Some(n)) = (sh.tag_at(c, i - 1), sh.tag_at(c, i)) {
+                            sh.ev_end(ev, HK::Cas { cur: p, new: n, prev: p });
+                        }
+                    }
+                    // the values passed to f were loaded (also by the attempt that installed)
+                    let mut h = sh.hist.lock().unwrap();
+                    for (arg, _, _) in att.iter() {
+                        let mut e = h[ev].clone();
+                        if e.ret.is_none() {
+                            continue;
+                        }
+                        e.kind = Some(HK::Load { got: *arg });
+                        h.push(e);
+                    }
                 }
             }
         }
@@ -919,15 +1008,18 @@ impl<S: Strat> Local<S> {
                 set_tag(n.id());
                 let nid = n.id();
                 sh.clear_wrote(c);
+                let lo = sh.window_lo(c, false);
                 let ev = sh.ev_begin(c);
                 rt::op_begin(OpKind::Write, sh.caddr(c), true);
                 let r = catch_unwind(AssertUnwindSafe(|| sh.conts[c].store(Some(n))));
                 rt::op_end();
-                let _ = sh.wrote(c);
-                sh.ev_end(ev, HK::Store { new: nid });
+                let idx = sh.wrote(c);
+                if idx.is_some() {
+                    sh.ev_end(ev, HK::Store { new: nid });
+                }
                 if let Err(e) = r {
                     if is_injected(&e) {
-                        sh.hs(|h| h.panics_in_writer += 1);
+                        sh.dtor_panic_in_write(c, idx, lo);
                     } else {
                         report("O-total", "C13", format!("store panicked: {}", panic_msg(&e)));
                     }
@@ -966,7 +1058,9 @@ fn thread_main<S: Strat>(tid: usize, prog: &Program, sh: &Arc<Shared<S>>) {
             break;
         }
         loc.recv(sh);
-        loc.step(sh, op);
+        // an injected destructor panic may fire wherever the harness itself releases a value
+        guarded("harness step", || loc.step(sh, op));
+        take_injected();
     }
     if tid == 0 {
         // the finalizer
@@ -1005,9 +1099,13 @@ fn thread_main<S: Strat>(tid: usize, prog: &Program, sh: &Arc<Shared<S>>) {
                 let cont: Cont<S> = unsafe { std::ptr::read(&*sh.conts[c]) };
                 let ev = sh.ev_begin(c);
                 rt::op_begin(OpKind::Write, sh.caddr(c), true);
+                let stored_id = sh.tags_from(c, 0).last().copied();
                 if prog.consume[c] {
                     let v = guarded("into_inner", move || cont.into_inner());
                     rt::op_end();
+                    if v.is_none() && take_injected() {
+                        sh.f5.lock().unwrap().extend(stored_id);
+                    }
                     if let Some(v) = v {
                         let id = ident(&v, "into_inner of the container");
                         sh.ev_end(ev, HK::Load { got: id });
@@ -1016,8 +1114,11 @@ fn thread_main<S: Strat>(tid: usize, prog: &Program, sh: &Arc<Shared<S>>) {
                         }
                     }
                 } else {
-                    guarded("container drop", move || drop(cont));
+                    let r = guarded("container drop", move || drop(cont));
                     rt::op_end();
+                    if r.is_none() && take_injected() {
+                        sh.f5.lock().unwrap().extend(stored_id);
+                    }
                 }
                 if rt::aborted() {
                     break;
@@ -1050,7 +1151,8 @@ fn thread_main<S: Strat>(tid: usize, prog: &Program, sh: &Arc<Shared<S>>) {
                     break;
                 }
                 sh2.hs(|h| h.dtor_ops += 1);
-                l.step(&sh2, op);
+                guarded("harness step", || l.step(&sh2, op));
+                take_injected();
             }
             l.release_all(&sh2);
         }));
@@ -1116,12 +1218,15 @@ fn quiesce_check<S: Strat>(sh: &Shared<S>, st: &mut rt::State) {
             }
             continue;
         }
+        let f5 = sh.f5.lock().unwrap().iter().filter(|&&x| x == o.id).count();
         if own + g == 0 {
-            st.fail("O-tight", "C02", format!("value id={} has no owner left at a quiescent point but was not destroyed (strong={})", o.id, o.strong));
+            let mark = if f5 > 0 && o.strong <= f5 { F5_MARK } else { "" };
+            st.fail("O-tight", "C02", format!("value id={} has no owner left at a quiescent point but was not destroyed (strong={}) {}", o.id, o.strong, mark));
             return;
         }
         if o.strong < own || o.strong > own + g {
-            st.fail("O-acct", "C02", format!("value id={}: strong count {} but {} owner(s) and {} guard(s) at a quiescent point", o.id, o.strong, own, g));
+            let mark = if f5 > 0 && o.strong > own + g && o.strong <= own + g + f5 { F5_MARK } else { "" };
+            st.fail("O-acct", "C02", format!("value id={}: strong count {} but {} owner(s) and {} guard(s) at a quiescent point {}", o.id, o.strong, own, g, mark));
             return;
         }
     }
@@ -1207,6 +1312,7 @@ fn run_case_s<S: Strat>(case: &Case, trace: bool) -> Outcome {
         completed: (0..p.ncont).map(|_| Mutex::new(Vec::new())).collect(),
         inv: (0..nt).map(|_| Mutex::new((Vec::new(), Vec::new()))).collect(),
         stop: AtomicBool::new(false),
+        f5: Mutex::new(Vec::new()),
         hs: Mutex::new(HStats::default()),
         loaded_ids: Mutex::new(Vec::new()),
         discarded_ids: Mutex::new(Vec::new()),
@@ -1268,7 +1374,9 @@ fn run_case_s<S: Strat>(case: &Case, trace: bool) -> Outcome {
         // O-acct at the end: everything destroyed exactly once
         for o in varc::arena_snapshot() {
             if o.live || o.destroyed != 1 || o.strong != 0 {
-                fail = Some(Failure { oracle: "O-acct".into(), prop: "C02".into(), msg: format!("at the end (all handles, guards and containers released) value id={} is live={} destroyed={}x strong={}", o.id, o.live, o.destroyed, o.strong) });
+                let f5 = sh.f5.lock().unwrap().iter().filter(|&&x| x == o.id).count();
+                let mark = if o.live && o.destroyed == 0 && o.strong >= 1 && o.strong <= f5 { F5_MARK } else { "" };
+                fail = Some(Failure { oracle: "O-acct".into(), prop: "C02".into(), msg: format!("at the end (all handles, guards and containers released) value id={} is live={} destroyed={}x strong={} {}", o.id, o.live, o.destroyed, o.strong, mark) });
                 break;
             }
         }
